@@ -338,7 +338,10 @@ P_C20(x) ==
 
 \* --- C01: the accepted edit, then undo(), then redo() --------------------
 \* x additionally has u_ret, u_post, r_ret, r_post
-P_C01(x) == (PFValid(x.pf) /\ Accepted(x) /\ (IsPrim(x.c) => PrimPre(x.pre, x.c))) =>
+\* (C01 quantifies over every REACHABLE state, so there is no validity antecedent: on a correct tree every
+\* reachable state is valid anyway, and an edit must be invertible also in a state an earlier defect produced;
+\* primitives are judged under their documented preconditions, which presuppose a valid state)
+P_C01(x) == (Accepted(x) /\ (IsPrim(x.c) => (PFValid(x.pf) /\ PrimPre(x.pre, x.c)))) =>
             /\ x.u_ret /\ ObsEq(x.pre, x.u_post)
             /\ x.r_ret /\ ObsEq(x.post, x.r_post)
 \* undo and redo of an accepted edit also keep the state invariants (C03..C09 "undo or redo")
